@@ -1,5 +1,6 @@
 import Pms.Lemmas.Cond
 import Pms.Lemmas.CondSq
+import Pms.Lemmas.CondComplex
 
 /-!
 # C13 — conditional g(r) and S(q)
@@ -15,7 +16,7 @@ Property theorems only; helper lemmas are in Pms/Lemmas/Cond.lean and Pms/Lemmas
 open Finset
 namespace Pms.Cond
 open Pms
-open Pms.Sq (Cx reMulConj phase)
+open Pms.Sq (Cx reMulConj phase SqrtOK)
 open Pms.Gen.Cond
 
 variable {K : Type} [Field K] [LinearOrder K] [IsStrictOrderedRing K]
@@ -140,5 +141,131 @@ theorem C13_gr_bins (tr : Gr.Traj K) (hδ : tr.rdelta ≠ 0) : Impl.maxbinArg gr
   simp only [Impl.maxbinArg, grSrc, CExpr.eval, Impl.state0, Gr.Spec.maxbinArg, Gr.Spec.Lmin]
   push_cast
   field_simp
+
+/-! ### conditional S(q) -/
+
+/-- **Dispatch of conditional_sq.**  A mask (dtype bool) reaches the selected-particle branch (divisor: the number of
+selected particles), a real or complex scalar of any dtype the scalar branch, a vector field (any dtype) the
+component-wise branch (divisor N in both); the frame is rounded to 8 decimals before the group-by. -/
+theorem C13_sq_dispatch :
+    (∀ kind ∈ sqKinds, ∀ dt ∈ kind.dtypes,
+      (selectBranch sqBranches dt kind.rank).map SqBranch.sem = some (expectedSem kind)) ∧ sqRound = 8 :=
+  ⟨sq_dispatch_table, by decide +kernel⟩
+
+/-- **conditional S(q) is |Σ_i A_i exp(−i q·r_i)|²/n** (summed over the components of a vector field), per wave
+vector, for ARBITRARY phase arrays c_ik = cos(q_k·r_i), s_ik = sin(q_k·r_i): the algorithm of `conditional_sq`
+(regenerated branch, particle loop, division by √n, |·|²) returns the definition with n = number of selected
+particles for a mask and n = N otherwise.  `sqrt` is any non-negative root (contract of `math.sqrt`). -/
+theorem C13_sq_def (sqrt : K → K) (hs : SqrtOK sqrt) (N : ℕ) (hN : 0 < N) (kind : Spec.Kind) (hk : kind ∈ sqKinds)
+    (x : Input K) (hx : Valid kind N x) (c s : ℕ → ℕ → K) (k : ℕ) :
+    Impl.condSq sqBranches sqrt N x c s k
+      = some (Spec.condSq (Spec.nOf kind N x) N (if kind = .vector then x.m else 1) x.A c s k) :=
+  condSq_eval sqrt hs N hN kind hk x hx c s k
+
+/-- **A boolean selection of one species reproduces that species' partial S_aa** — `Spec.S a a` of C04 itself (one
+frame): if the mask selects exactly the particles of type a, the `Sq` column is Re[ρ_a conj ρ_a]/√(N_a N_a). -/
+theorem C13_sq_bool_is_partial (sqrt : K → K) (hs : SqrtOK sqrt) (N : ℕ) (hN : 0 < N) (ty : ℕ → ℕ) (a : ℕ) (x : Input K)
+    (hx : Valid .bool N x) (hsel : ∀ i, x.sel i = decide (ty i = a)) (c s : ℕ → ℕ → K) (k : ℕ) :
+    Impl.condSq sqBranches sqrt N x c s k
+      = some (Sq.Spec.S sqrt 1 N (fun _ => ty) (fun _ => c) (fun _ => s) a a k) := by
+  rw [condSq_eval sqrt hs N hN .bool (by decide) x hx c s k]
+  congr 1
+  have hn : Spec.nOf .bool N x = Sq.countType N ty a := by
+    simp only [Spec.nOf, if_true]; exact count_eq_countType N ty a x.sel hsel
+  simp only [Spec.condSq, Sq.Spec.S, sumRange_one, reduceCtorEq, if_false, (hx.mask rfl).1, hn, hs.sq_nat,
+    cmode_ind_eq_rho N ty a x.sel hsel c s k]
+  simp
+
+/-- **A = 1 reproduces the total S(q)** — `Spec.Stot` of C04 (one frame): |ρ(q)|²/N. -/
+theorem C13_sq_ones_is_total (sqrt : K → K) (hs : SqrtOK sqrt) (N : ℕ) (hN : 0 < N) (x : Input K)
+    (hx : Valid .real N x) (hone : ∀ i c, x.A i c = ⟨1, 0⟩) (c s : ℕ → ℕ → K) (k : ℕ) :
+    Impl.condSq sqBranches sqrt N x c s k = some (Sq.Spec.Stot 1 N (fun _ => c) (fun _ => s) k) := by
+  rw [condSq_eval sqrt hs N hN .real (by decide) x hx c s k]
+  congr 1
+  have hn : Spec.nOf .real N x = N := by simp [Spec.nOf]
+  simp only [Spec.condSq, Sq.Spec.Stot, sumRange_one, reduceCtorEq, if_false, hn, cmode_one_eq_rhoAll N x.A hone c s k]
+  simp
+
+/-- **A vector field equals the sum over its components** (S(q)): the `Sq` column of a vector condition is the sum of
+the `Sq` columns of its components passed as scalar conditions of the same dtype. -/
+theorem C13_sq_vector_is_sum_of_components (sqrt : K → K) (hs : SqrtOK sqrt) (N : ℕ) (hN : 0 < N) (x : Input K)
+    (hx : Valid .vector N x) (c s : ℕ → ℕ → K) (k : ℕ) :
+    ∃ g : ℕ → K, (∀ a, Impl.condSq sqBranches sqrt N (component x a) c s k = some (g a)) ∧
+      Impl.condSq sqBranches sqrt N x c s k = some (∑ a ∈ range x.m, g a) := by
+  refine ⟨fun a => Spec.condSq N N 1 (component x a).A c s k, ?_, ?_⟩
+  · intro a
+    have hk : scalarKind x.dtype ∈ sqKinds := by unfold scalarKind; split <;> decide
+    have hnv : scalarKind x.dtype ≠ .vector := by unfold scalarKind; split <;> simp
+    rw [condSq_eval sqrt hs N hN (scalarKind x.dtype) hk (component x a) (component_valid N x hx a) c s k,
+      nOf_scalarKind, if_neg hnv]
+  · rw [condSq_eval sqrt hs N hN .vector (by decide) x hx c s k]
+    congr 1
+    have hn : Spec.nOf .vector N x = N := by simp [Spec.nOf]
+    simp only [Spec.condSq, if_true, hn, sumRange_one, component]
+    simp only [sumRange_eq]
+    rw [Finset.sum_div]
+
+/-- **The averaged frame**: with ANY rounding map (the code's `round(8)`) and ANY grouping key (the rounded |q|), the
+returned per-|q| frame lists the distinct keys in increasing order, each with the arithmetic mean of the rounded
+definition over exactly the wave vectors of that key. -/
+theorem C13_sq_group (sqrt rnd : K → K) (hs : SqrtOK sqrt) (N : ℕ) (hN : 0 < N) (kind : Spec.Kind) (hk : kind ∈ sqKinds)
+    (x : Input K) (hx : Valid kind N x) (c s : ℕ → ℕ → K) {κ : Type} [LinearOrder κ] (nq : ℕ) (key : ℕ → κ) :
+    (Sq.distinctKeys nq key).Pairwise (· < ·) ∧
+    Sq.groupMean nq key (fun k => rnd ((Impl.condSq sqBranches sqrt N x c s k).getD 0))
+      = (Sq.distinctKeys nq key).map fun q =>
+          (q, (∑ k ∈ (range nq).filter (fun k => key k = q),
+                rnd (Spec.condSq (Spec.nOf kind N x) N (if kind = .vector then x.m else 1) x.A c s k))
+              / (((range nq).filter (fun k => key k = q)).card : K)) := by
+  refine ⟨Sq.sorted_distinctKeys nq key, ?_⟩
+  rw [Sq.groupMean_eq]
+  refine List.map_congr_left fun q _ => ?_
+  congr 2
+  refine Finset.sum_congr rfl fun k _ => ?_
+  rw [condSq_eval sqrt hs N hN kind hk x hx c s k]; rfl
+
+/-! ### the pair model of complex numbers against ℂ -/
+
+/-- the pair weight is the property's formula over ℂ: Re(A_i · conj A_j) -/
+theorem C13_weight_complex (a b : Cx ℝ) : reMulConj a b = (toC a * (starRingEnd ℂ) (toC b)).re := by
+  rw [Sq.reMulConj_eq, Complex.mul_re]
+  simp [toC]
+
+/-- with c = cos(q·r), s = sin(q·r) the model's |mode|² is |Σ_i A_i exp(−i q·r_i)|² over ℂ -/
+theorem C13_sq_complex (N : ℕ) (A : ℕ → Cx ℝ) (θ : ℕ → ℝ) :
+    reMulConj (cmode N A (fun i => Real.cos (θ i)) (fun i => Real.sin (θ i)))
+              (cmode N A (fun i => Real.cos (θ i)) (fun i => Real.sin (θ i)))
+      = Complex.normSq (modeC N A θ) := by
+  rw [Sq.reMulConj_eq, cmode_re, cmode_im, Complex.normSq_apply]
+
+/-! ### non-vacuity -/
+
+/-- a concrete single configuration over ℚ (three particles, 2D, one frame) satisfies `WFc` -/
+def exampleConf : Gr.Traj ℚ :=
+  { d := 2, N := 3, T := 1,
+    frame := fun _ => { pos := fun i k => (i : ℚ) * (7 / 10) + (k : ℚ) / 5,
+                        typ := fun i => if i = 1 then 2 else 1,
+                        H := fun i j => if i = j then 4 else 0,
+                        Hinv := fun i j => if i = j then 1 / 4 else 0 },
+    ppp := fun _ => 1, box := fun _ => 4, rdelta := 1 / 2, maxbin := 4, pi := 22 / 7,
+    typecount := fun i => if i = 0 then 2 else 1 }
+
+theorem C13_hypotheses_satisfiable : WFc ratRint exampleConf :=
+  ⟨ratRint_isRintHE, Or.inl rfl, rfl, by decide, by decide +kernel, by decide +kernel, by decide +kernel⟩
+
+/-- a mask selecting species 1 is a valid boolean condition; a real field, a complex field, a vector field and a
+(symmetric) tensor field with a dtype of their kind are valid conditions -/
+example : Valid (K := ℚ) .bool 3 { dtype := .bool, rank := 1, m := 1, sel := fun i => decide (i ≠ 1),
+                                    A := boolValues fun i => decide (i ≠ 1) } :=
+  ⟨by decide, rfl, fun _ i _ c => rfl, fun _ => ⟨fun i c => rfl, by decide⟩⟩
+
+example : Valid (K := ℚ) .complex 3 { dtype := .complex64, rank := 1, m := 1, sel := fun _ => false,
+                                       A := fun i _ => ⟨(i : ℚ), 1 - (i : ℚ)⟩ } :=
+  ⟨by decide, rfl, fun h => by simp [Spec.Kind.isRealValued] at h, fun h => by simp at h⟩
+
+example : Valid (K := ℚ) .tensor 3 { dtype := .float64, rank := 3, m := 4, sel := fun _ => false,
+                                      A := fun i c => ⟨(i : ℚ) + (if c = 1 ∨ c = 2 then 1 / 2 else (c : ℚ)), 0⟩ } :=
+  ⟨by decide, rfl, fun _ i _ c => rfl, fun h => by simp at h⟩
+
+example : SqrtOK Real.sqrt := fun x hx => ⟨Real.sqrt_nonneg x, Real.mul_self_sqrt hx⟩
 
 end Pms.Cond
